@@ -879,7 +879,10 @@ def _compile_module_file(template, text, filename, outputpath, module_writer):
     )
 
     if isinstance(source, str):
-        source = source.encode(lexer.encoding or "ascii")
+        # a character that the template's encoding cannot express can only
+        # come from an escape sequence in a string literal of the template;
+        # it is written to the module file as an escape sequence again
+        source = source.encode(lexer.encoding or "ascii", "backslashreplace")
 
     # bytecode cached for the module file being replaced is matched to
     # its source by whole-second mtime and size only, and would be run
